@@ -1318,6 +1318,29 @@ STRONG = {
 STRONG_FR_ARTICLE = ["je vois le chat noir", "elle sort du grand magasin", "nous aimons le vin", "il parle du vieux port"]
 
 
+_FR_WORD = re.compile(r"[^\W_]+(?:['\u2019-][^\W_]+)*'?")
+
+
+def _fr_neuf_article_in_separator(s, whole, ra, rb):
+    """The one recorded French context dependence (known finding F-fr-neuf-across-full-stop), recognised exactly: the whole
+    text differs from `ra + s + rb` only in that ONE `neuf` of B, rewritten `9` when B stands alone, stays in words, and an
+    article `un`/`le`/`du`/`l'` of the SEPARATOR stands two or three words before that `neuf` (the look-behind of the
+    annotation pass crosses the separator's full stop)."""
+    if not whole.startswith(ra + s):
+        return False
+    rest = whole[len(ra + s):]
+    nsep = len(_FR_WORD.findall(s))
+    for m in re.finditer(r"(?i)(?<![^\W_])neuf(?![^\W_])", rest):
+        if rest[:m.start()] + "9" + rest[m.end():] != rb:
+            continue
+        words = [w.lower() for w in _FR_WORD.findall(s + rest[:m.start()])]
+        for back in (2, 3):
+            k = len(words) - back
+            if 0 <= k < nsep and words[k] in ("un", "le", "du", "l'"):
+                return True
+    return False
+
+
 def oracle_c10(ctx, focus):
     failures, n, distinct = [], 0, set()
     thrs = [THR0, t2nlib.thr_bits(5.0), t2nlib.thr_bits(10.0), t2nlib.thr_bits(float("inf")), t2nlib.thr_bits(float("nan"))]
@@ -1380,8 +1403,7 @@ def oracle_c10(ctx, focus):
             whole, ra, rb = (unesc(outs[3 * i + j]) for j in range(3))
             if whole != ra + s + rb:
                 kind = "context"
-                if lang == "fr" and s.strip(" .") in STRONG_FR_ARTICLE and b.lower().startswith("neuf") and whole.startswith(ra + s) \
-                        and whole[len(ra + s):].lower().startswith("neuf") and not rb.lower().startswith("neuf"):
+                if lang == "fr" and _fr_neuf_article_in_separator(s, whole, ra, rb):
                     kind = "context-neuf-after-article"      # B's leading `neuf` read as the adjective because of an article in S
                 failures.append(fail(a + s + b, whole, ra + s + rb, reqs[3 * i:3 * i + 3], lang=lang, what=kind))
             distinct.add((lang, ra, rb))
